@@ -112,6 +112,7 @@ type FnGen struct {
 	ghostLocals     map[string]Val
 	qfacts          []QFact
 	sumUnfolded     map[string]bool
+	acquired        map[string]State // monitor owner term -> state right after its mutex was acquired
 	autoInvs        map[*ssa.BasicBlock][]autoInv
 	loopTypeInvObjs map[*ssa.BasicBlock][]Val
 
@@ -272,11 +273,11 @@ var strongKinds = map[string]bool{
 	"index": true, "slice": true, "div": true, "extern-requires": true, "panic": true, "requires": true,
 	"ensures": true, "subtype": true, "invariant-entry": true, "invariant-preserved": true, "decreases": true,
 	"assert": true, "assigns": true, "make": true, "shift": true, "nil-map": true, "lemma": true, "typeinv": true,
-	"shared-write": true,
+	"shared-write": true, "lockinv": true,
 }
 
 var functionalKinds = map[string]bool{"ensures": true, "subtype": true, "invariant-entry": true, "invariant-preserved": true,
-	"assert": true, "decreases": true, "requires": true, "typeinv": true}
+	"assert": true, "decreases": true, "requires": true, "typeinv": true, "lockinv": true}
 
 func (g *FnGen) oblige(kind, label, guard, cond, desc string, pos token.Pos) *Obligation {
 	r := g.root()
